@@ -1973,6 +1973,15 @@ pub(super) struct PeerState<SP: SignerProvider> {
 }
 
 impl<SP: SignerProvider> PeerState<SP> {
+	/// `update_id`s of the in-flight monitor updates tracked for `channel_id` (verification accessor).
+	#[cfg(feature = "verif_hooks")]
+	pub(crate) fn verif_in_flight_update_ids(&self, channel_id: &ChannelId) -> Vec<u64> {
+		self.in_flight_monitor_updates
+			.get(channel_id)
+			.map(|(_, upds)| upds.iter().map(|u| u.update_id).collect())
+			.unwrap_or_default()
+	}
+
 	/// Indicates that a peer meets the criteria where we're ok to remove it from our storage.
 	/// If true is passed for `require_disconnected`, the function will return false if we haven't
 	/// disconnected from the node already, ie. `PeerState::is_connected` is set to `true`.
